@@ -72,8 +72,8 @@ CHECKS = {
     "C15": vsim("TestVerif_C15", ["no-crash", "serve", "shutdown", "tasks-complete", "log-read"],
         "cases = generated chaos schedules (client + admin tasks, snapshots, compaction, transfers, membership changes, partitions, crash/stop/restart, many 1 KiB segments) ending with heal, restart, 60 s of virtual time and shutdown of every node; non-trivial: >=3 of {snapshot, compaction, install, transfer, membership change, partition, restart}; distinct by trace hash",
         1500, 15000, race=True),
-    "C16": vsim("TestVerif_C16", ["transfer", "leader-unique", "converge"],
-        "cases = generated transfer schedules (target given/any/invalid, gated delivery of timeout-now, its reply and the vote traffic, concurrent updates and membership actions); non-trivial: a timeout-now request was written and the transfer task completed; distinct by trace hash",
+    "C16": vsim("TestVerif_C16", ["transfer", "leader-unique", "converge", "tasks-complete"],
+        "cases = generated transfer schedules (target given/any/invalid, gated delivery of timeout-now, its reply and the vote traffic, concurrent updates and membership actions); non-trivial: a timeout-now request was written and the transfer task completed; every submitted task (the transfer requests in particular) has completed when its node has shut down; distinct by trace hash",
         2000, 20000),
     "C17": vsim("TestVerif_C17", ["converge", "stability"],
         "cases = generated fault histories from every profile (partitions, crashes at hook points, restarts, lagging followers, compaction leaving followers behind, removed nodes that keep running), then an availability phase: holds released, a drawn superset of a majority of the committed configuration's voters is restarted and keeps exchanging messages, everybody else is cut off or stays down, virtual time runs 40 s (20-40 election timeouts), a probe update is submitted, 20 s more. Oracle (bounded liveness): exactly one leader inside the healthy set, it committed an entry of its own term, the probe completed, every healthy member has the leader's last index and applied index. Stability oracle, two parts: (a) in time-frozen delivery steps of gated schedules a follower that believed in leader L before the step and still does answers a vote request without transfer permission from another node with leaderKnown; (b) function-level: for generated voter states (the votefn generator of C05) every request without transfer permission to a follower that knows a leader other than the sender is answered leaderKnown and leaves term, vote, leader and the term file unchanged. non-trivial: >=2 faults and the availability phase ran, or the stability oracle judged a request; distinct by trace hash",
